@@ -119,9 +119,10 @@ def rulePullValueFromCsrMemory (n : Node) (out : AMap Reg) (memOutOld : AMap Mem
   | none => out
 
 def zeroStep {κ : Type} [DecidableEq κ] (acc : AMap κ) (p : κ × AVal) : AMap κ :=
+  -- only a description that is still in the outs is rewritten
   match p.2 with
-  | .ors r i => if r == 0 then AMap.insert acc p.1 (.const i) else acc
-  | .rs r i => if r == 0 then AMap.insert acc p.1 (.const i) else acc
+  | .ors r i => if r == 0 && AMap.get acc p.1 == some p.2 then AMap.insert acc p.1 (.const i) else acc
+  | .rs r i => if r == 0 && AMap.get acc p.1 == some p.2 then AMap.insert acc p.1 (.const i) else acc
   | _ => acc
 
 def zeroConsts {κ : Type} [DecidableEq κ] (out inn : AMap κ) : AMap κ := inn.foldl zeroStep out
@@ -193,9 +194,9 @@ def insertGen (out : AMap Reg) : Option (Reg × AVal) → AMap Reg
   | some (r, v) => AMap.insert out r v
   | none => out
 
-/-- `out[n]` for registers: kills, generated value, entry seeds, then the rules in the order of
-    the code. `cn.memOut` is the node's memory-out of the *previous* sweep (read by the CSR pull). -/
-def nodeRegOut (cn : CNode) (inReg : AMap Reg) (inMem : AMap MemLoc) : AMap Reg :=
+/-- `out[n]` before the estimation rules: in-map minus the kills, plus the generated value and
+    the seeds of entry nodes -/
+def preRules (cn : CNode) (inReg : AMap Reg) : AMap Reg :=
   let n := cn.node
   let out0 := (RegSet.toList n.killReg).foldl AMap.erase inReg
   let out1 := if n.callsTo.isSome then (RegSet.toList returnAddrSet).foldl AMap.erase out0 else out0
@@ -209,8 +210,13 @@ def nodeRegOut (cn : CNode) (inReg : AMap Reg) (inMem : AMap MemLoc) : AMap Reg 
   let out2 := insertGen out1 n.genRegValue
   let out3 := if n.isHandlerFunctionEntry then AMap.extend out2 (originals allWritableSet) else out2
   let out4 := if n.isFunctionEntry then AMap.extend out3 (originals calleeSavedSet) else out3
-  let out5 := if n.isProgramEntry then AMap.extend out4 (originals spRaSet) else out4
-  let r1 := ruleExpandAddressForLoad n out5 inReg
+  if n.isProgramEntry then AMap.extend out4 (originals spRaSet) else out4
+
+/-- `out[n]` for registers: kills, generated value, entry seeds, then the rules in the order of
+    the code. `cn.memOut` is the node's memory-out of the *previous* sweep (read by the CSR pull). -/
+def nodeRegOut (cn : CNode) (inReg : AMap Reg) (inMem : AMap MemLoc) : AMap Reg :=
+  let n := cn.node
+  let r1 := ruleExpandAddressForLoad n (preRules cn inReg) inReg
   let r2 := ruleValueFromStack n r1 inMem
   let r3 := rulePullValueFromCsrMemory n r2 cn.memOut        -- reads the *old* memory_values_out
   let r4 := zeroConsts r3 inReg
@@ -289,12 +295,12 @@ def noZeroBaseB (m : AMap Reg) : Bool :=
     | .rs r _ => r != 0
     | _ => true
 
-/-- one entry per key, no claim relative to x0, and at every visited node: in = meet of the
+/-- one entry per key, and at every visited node: in = meet of the
     outs of the visited predecessors, out = transfer of in (as finite maps) -/
 def goodFactsB (g : Cfg) (V : List Nat) : Bool :=
   (List.range g.nodes.size).all fun i =>
     let cn := g.get i
-    keysNodup cn.regIn && keysNodup cn.regOut && noZeroBaseB cn.regIn &&
+    keysNodup cn.regIn && keysNodup cn.regOut &&
     (!V.contains i ||
       (AMap.sameAs cn.regIn (meetOver ((cn.prevs.filter V.contains).map fun p => (g.get p).regOut)) &&
        AMap.sameAs cn.regOut (nodeRegOut cn cn.regIn cn.memIn)))
@@ -314,5 +320,24 @@ def interruptHandlerNames (g : Cfg) : List (W String) :=
     match hit with
     | some l => addName acc ⟨l, FTok.default⟩
     | none => acc) []
+
+
+/-- which node and which clause of `goodFactsB` fails first (diagnostics only) -/
+def goodFactsWhy (g : Cfg) (V : List Nat) : String :=
+  match (List.range g.nodes.size).find? (fun i =>
+    let cn := g.get i
+    !(keysNodup cn.regIn && keysNodup cn.regOut &&
+      (!V.contains i ||
+        (AMap.sameAs cn.regIn (meetOver ((cn.prevs.filter V.contains).map fun p => (g.get p).regOut)) &&
+         AMap.sameAs cn.regOut (nodeRegOut cn cn.regIn cn.memIn))))) with
+  | none => "ok"
+  | some i =>
+    let cn := g.get i
+    let a := keysNodup cn.regIn
+    let b := keysNodup cn.regOut
+    let c := noZeroBaseB cn.regIn
+    let d := AMap.sameAs cn.regIn (meetOver ((cn.prevs.filter V.contains).map fun p => (g.get p).regOut))
+    let e := AMap.sameAs cn.regOut (nodeRegOut cn cn.regIn cn.memIn)
+    s!"node={i} nodupIn={a} nodupOut={b} noZeroBase={c} inEq={d} outEq={e} in={regMapStr cn.regIn} meet={regMapStr (meetOver ((cn.prevs.filter V.contains).map fun p => (g.get p).regOut))} out={regMapStr cn.regOut} transfer={regMapStr (nodeRegOut cn cn.regIn cn.memIn)}"
 
 end Rva
